@@ -183,7 +183,8 @@ pub fn run_c07(ctx: &mut Ctx) {
     }
     let n = ctx.budget(600, 20000);
     for i in 0..n {
-        let k = ctx.rng.random_range(1..=6);
+        // mostly 1-6 sources; sometimes many (bit masks / small fixed-size tables overflow at 32, 64, 128, 255 sources)
+        let k = if i % 40 == 7 { [31u64, 33, 63, 64, 65, 70, 129, 257][ctx.rng.random_range(0..8)] } else { ctx.rng.random_range(1..=6) };
         let lens: Vec<u64> = (0..k).map(|_| if ctx.rng.random_bool(0.15) { 0 } else { ctx.rng.random_range(1..=if i % 7 == 0 { 30 } else { 6 }) }).collect();
         let s = ctx.rng.random_range(0..3);
         let seed = crate::gen::seed(&mut ctx.rng);
